@@ -399,7 +399,10 @@ def all_factories():
             continue
         for name, f in sorted(vars(mod).items()):
             if isinstance(f, types.FunctionType) and f.__module__ == mod.__name__ and name[:1].isupper() and name not in WRAPPERS:
-                out.append((m, name, f, any(w in f.__code__.co_names for w in WRAPPERS)))
+                # "plain" = nothing but `return Element(qname=(…NS, '…'), **args)`; every factory that does more
+                # (a wrapper, args.setdefault, own argument handling) is always exercised
+                plain = all(n == 'Element' or n.endswith('NS') for n in f.__code__.co_names)
+                out.append((m, name, f, not plain))
     return out
 
 
@@ -420,9 +423,25 @@ def required_kwargs(f):
 
 
 def variants(req, par):
+    from odf import style
     r = dict(req)
     named = dict(r); named.setdefault('name', u'n1')
-    return [
+    g1 = style.Style(name=u'g1', family=u'graphic'); g2 = style.Style(name=u'g2', family=u'graphic')
+    pr = style.Style(name=u'pr', family=u'presentation'); para = style.Style(name=u'pa', family=u'paragraph')
+    nofam = style.Style(name=u'nf', check_grammar=False)
+    objs = [
+        ('stylename graphic', dict(stylename=g1)), ('stylename paragraph', dict(stylename=para)),
+        ('stylename nofamily', dict(stylename=nofam)), ('stylename string', dict(stylename=u'g1')),
+        ('classnames graphic', dict(classnames=[g1, g2])), ('classnames presentation', dict(classnames=[pr])),
+        ('classnames paragraph', dict(classnames=[para])), ('classnames empty', dict(classnames=[])),
+        ('classnames mixed', dict(classnames=[g1, para])), ('classnames string', dict(classnames=u'g1')),
+        ('stylename+classnames wrong', dict(stylename=g1, classnames=[para])),
+    ]
+    extra = []
+    for label, kw in objs:
+        extra.append((label, (lambda kw: lambda f: f(parent=par, **dict(r, **kw)))(kw)))
+        extra.append((label + ' in attributes', (lambda kw: lambda f: f(attributes=dict(r, parent=par), **kw))(kw)))
+    return extra + [
         ('kw', lambda f: f(parent=par, **r)),
         ('attributes', lambda f: f(attributes=dict(r, parent=par))),
         ('kw+attributes', lambda f: f(parent=par, attributes=dict(r))),
@@ -483,6 +502,93 @@ def wrapper_call(mod, name, label):
     return None
 
 
+# ---------------------------------------------------------------------------------------------
+# side effects that run in OpenDocument hooks after the node is in the tree (build_caches, __register_stylename):
+# styles with used names added to the style sections of a document, through every entry point; ANY exception counts
+def hook_history(ops):
+    """ops: ['mk', i, name] | ['adde'|'append', sec, i] | ['insb', sec, i] | ['ctor', sec, name] | ['rm', i] | ['rename', i, name];
+    sec 0 = office:styles, 1 = office:automatic-styles.  Returns (index, detail) of the first raising call that changed the document"""
+    from odf.opendocument import OpenDocumentText
+    from odf import style
+    doc = OpenDocumentText()
+    secs = [doc.styles, doc.automaticstyles]
+    st = {}
+    names = (u'A', u'B', u'MA', u'Nope')
+    def snap():
+        def walk(n, depth):
+            if depth > 50: return ['DEEP']
+            if n.nodeType == 1:
+                return [id(n), n.qname, sorted((k, v) for k, v in n.attributes.items()), [walk(c, depth + 1) for c in n.childNodes]]
+            return [id(n), n.data]
+        out = {'tree': walk(doc.topnode, 0)}
+        for nm in names:
+            r = doc.getStyleByName(nm); out['style ' + nm] = None if r is None else id(r)
+        out['byType'] = sorted(id(e) for e in doc.getElementsByType(style.Style))
+        return out
+    for idx, op in enumerate(ops):
+        before = snap()
+        try:
+            k = op[0]
+            if k == 'mk': st[op[1]] = style.Style(name=op[2], family=u'paragraph')
+            elif k == 'adde': secs[op[1]].addElement(st[op[2]])
+            elif k == 'append': secs[op[1]].appendChild(st[op[2]])
+            elif k == 'insb':
+                ks = secs[op[1]].childNodes
+                secs[op[1]].insertBefore(st[op[2]], ks[0] if ks else None)
+            elif k == 'ctor': st[op[3]] = style.Style(name=op[2], family=u'text', parent=secs[op[1]])
+            elif k == 'rm':
+                if st[op[1]].parentNode is not None: st[op[1]].parentNode.removeChild(st[op[1]])
+            elif k == 'rename': st[op[1]].setAttribute('name', op[2])
+        except RecursionError:
+            raise
+        except KeyError:
+            continue                      # a style that a refused 'ctor' never produced
+        except Exception as e:
+            after = snap()
+            d = first_difference(before, after)
+            if d is not None:
+                return idx, '%s raised %s: %s -- but %r of the document changed' % (op, type(e).__name__, e, d)
+    return None
+
+
+def hook_histories(chk, n):
+    r = chk.rng
+    fixed = [
+        [['mk', 0, u'A'], ['mk', 1, u'A'], ['adde', 0, 0], ['adde', 0, 1]],
+        [['mk', 0, u'A'], ['mk', 1, u'A'], ['append', 0, 0], ['append', 1, 1]],
+        [['mk', 0, u'A'], ['mk', 1, u'A'], ['adde', 1, 0], ['insb', 1, 1]],
+        [['mk', 0, u'A'], ['adde', 0, 0], ['ctor', 1, u'A', 1]],
+        [['mk', 0, u'A'], ['mk', 1, u'B'], ['adde', 0, 0], ['adde', 1, 1], ['rename', 1, u'A'], ['rm', 1], ['adde', 0, 1]],
+        [['mk', 0, u'MA'], ['mk', 1, u'A'], ['mk', 2, u'A'], ['adde', 0, 0], ['adde', 0, 1], ['adde', 1, 2]],
+    ]
+    hist = list(fixed)
+    for _ in range(n):
+        ops = [['mk', i, r.choice([u'A', u'A', u'B', u'MA'])] for i in range(4)]
+        nxt = 4
+        for _ in range(r.randint(3, 12)):
+            k = r.choice(['adde', 'append', 'insb', 'ctor', 'rm', 'rename'])
+            if k in ('adde', 'append', 'insb'): ops.append([k, r.randint(0, 1), r.randint(0, 3)])
+            elif k == 'ctor': ops.append(['ctor', r.randint(0, 1), r.choice([u'A', u'B']), nxt]); nxt += 1
+            elif k == 'rm': ops.append(['rm', r.randint(0, 3)])
+            else: ops.append(['rename', r.randint(0, 3), r.choice([u'A', u'B'])])
+        hist.append(ops)
+    for ops in hist:
+        res = hook_history(ops)
+        chk.case(('hooks', json.dumps(ops)), nontrivial=True); chk.count('hook_history')
+        if res:
+            idx, detail = res
+            cur = ops[:idx + 1]
+            changed = True
+            while changed:
+                changed = False
+                for i in range(len(cur) - 2, -1, -1):
+                    cand = cur[:i] + cur[i + 1:]
+                    r2 = hook_history(cand)
+                    if r2:
+                        cur = cand[:r2[0] + 1]; changed = True; break
+            chk.fail('changed-by-refused:document-hook', {'hooks': cur}, (hook_history(cur) or res)[1])
+
+
 def wrapper_factories(chk):
     facs = all_factories()
     if chk.tier != 'thorough':
@@ -490,8 +596,9 @@ def wrapper_factories(chk):
         chk.rng.shuffle(rest)
         facs = [x for x in facs if x[3]] + rest[:120]
     labels = [l for l, _ in variants([], None)]
+    plain_labels = [l for l in labels if 'stylename' not in l and 'classnames' not in l]
     for mod, name, f, wrapped in facs:
-        for label in labels:
+        for label in (labels if wrapped else plain_labels):
             chk.count('factory_call'); chk.count('factory_call_wrapper' if wrapped else 'factory_call_plain')
             detail = wrapper_call(mod, name, label)
             chk.case(('factory', mod, name, label), nontrivial=True)
@@ -505,6 +612,10 @@ def run(chk, replay=None):
                 'invalid value, illegal text/cdata, illegal child, not-a-child reference, childless parent) x every entry point '
                 '(factory with and without parent=, addElement, addText, addCDATA, setAttribute, setAttrNS, removeAttribute, '
                 'insertBefore, removeChild, appendChild); non-trivial = history with at least one raising call')
+    if replay is not None and 'hooks' in replay['input']:
+        res = hook_history(replay['input']['hooks'])
+        print('replay: %s -> %s' % (replay['input']['hooks'], res))
+        return 1 if res else 0
     if replay is not None and 'wrapper' in replay['input']:
         detail = wrapper_call(*replay['input']['wrapper'])
         print('replay: %s -> %s' % (replay['input']['wrapper'], detail))
@@ -552,6 +663,7 @@ def run(chk, replay=None):
             report(chk, h)
     # ---- every factory function with parent=, all calling conventions
     wrapper_factories(chk)
+    hook_histories(chk, 600 if thorough else 120)
     # ---- systematic: every designed-to-fail call in every state of short histories
     depth = 2 if thorough else 1
     nstates = 0
